@@ -464,8 +464,12 @@ func runC19Gob(c *Ctx) *Violation {
 	if err != nil {
 		return &Violation{"C19.f5-gob-decode-error", fmt.Sprintf("NewMapGob(Gob(m)) returned %v", err)}
 	}
-	if Canon(back) != before {
-		return &Violation{"C19.f5-gob", fmt.Sprintf("gob round trip differs:\n back: %s\n orig: %s", clip(Canon(back), 400), clip(before, 400))}
+	if got := Canon(back); got != before {
+		// known finding: encoding/gob does not transmit empty containers, they come back nil
+		norm := strings.NewReplacer("nil-list", "[]", "nil-map", "{}").Replace(got)
+		if norm != before || !c.KnownHit("C19-gob-empty-container-becomes-nil", fmt.Sprintf("%s came back as %s", clip(before, 80), clip(got, 80))) {
+			return &Violation{"C19.f5-gob", fmt.Sprintf("gob round trip differs:\n back: %s\n orig: %s", clip(got, 400), clip(before, 400))}
+		}
 	}
 	c.Event("f5 %x", uint64(Digest(back)))
 	// every truncation of the gob bytes: an error, never a panic.  Only for values
